@@ -150,6 +150,9 @@ def run_struct_prop(prop, tier, seed, mc_cfg):
     struct_layer(prop, tier, seed, out, mc)
     gen_layer(prop, tier, seed, out, mc)
     lsm_mc_layer(mc_cfg, 'Lsm_MC')(prop, tier, seed, out, mc)
+    if prop == 'C13' and not out.full():
+        from . import p_disk
+        p_disk.fault_files_layer(prop, tier, seed, out, mc)
     st = mc.get('LsmTrace', {})
     cov = dict(states=st.get('states', 0) + mc.get('Lsm_MC', {}).get('states', 0),
                transitions=st.get('transitions', 0) + mc.get('Lsm_MC', {}).get('transitions', 0),
